@@ -126,9 +126,12 @@ func TestProp(t *testing.T) {
 		a.out.TraceHashes = map[string]uint64{}
 	}
 	flag.Set("rapid.nofailfile", "true")
-	shrink := "45s"
+	shrink := "30s"
 	if *fTier == "thorough" {
-		shrink = "5m"
+		shrink = "4m"
+	}
+	if v := os.Getenv("VERIF_SHRINK"); v != "" {
+		shrink = v
 	}
 	flag.Set("rapid.shrinktime", shrink)
 	// slow engines (real SQLite, WebSocket sessions, fault enumeration): fewer
@@ -142,9 +145,17 @@ func TestProp(t *testing.T) {
 	var failClass string
 	var lastFail *ReplayFile
 	stop := false
+	// rapid's own shrink deadline is only checked between coarse steps; bound
+	// the minimisation ourselves: past this deadline every further candidate
+	// "passes" at once and the smallest failing case seen so far is kept
+	shrinkFor, _ := time.ParseDuration(shrink)
+	var shrinkUntil time.Time
 
 	prop := func(rt *rapid.T) {
 		if stop {
+			return
+		}
+		if failClass != "" && time.Now().After(shrinkUntil) {
 			return
 		}
 		c := eng.Gen(rt, *fTier)
@@ -206,6 +217,7 @@ func TestProp(t *testing.T) {
 			lastFail = &ReplayFile{Property: *fProp, Engine: engName, Case: cj, Expect: &vv, Trace: res.Trace}
 			if failClass == "" {
 				failClass = v.Key()
+				shrinkUntil = time.Now().Add(shrinkFor)
 			}
 			rt.Fatalf("VIOLATION %s: %s", v.Key(), v.Msg)
 		}
